@@ -3,7 +3,7 @@ library round trips (JSON, to_dict/from_dict, copy.deepcopy, thermdat files).
 
 (D)    spec/Session.tla checked exhaustively (MC_Session.cfg; five variants that get it wrong
        must be rejected).
-(S->C) TLC behaviours (every behaviour of MC_Session_beh.cfg, -simulate behaviours of
+(S->C) TLC behaviours (every behaviour of MC_Session_beh2.cfg / _beh.cfg, -simulate behaviours of
        MC_Session_sim*.cfg) are stepped through the real library.  In `grid` cases the model
        numbers stand for chosen doubles (VALUE below) and after EVERY call every live object
        must EQUAL what TLC computed (family, GasPressureAdj count, coverage-model count, flag,
@@ -347,6 +347,8 @@ def _beh_to_case(beh, kind, cid, rnd):
     orig, h = beh[1], beh[2]
     ops = []
     for r in h:
+        if r['act'] == 'end':
+            continue
         op = {'act': r['act'], 'src': r['src'], 'dst': r['dst'], 'keep': r['keep']}
         if kind == 'grid':
             op['ws'] = r['ws']
@@ -387,31 +389,34 @@ def run(ctx):
         cases = [ctx.replay_case['case']]
     else:
         ctx.model('MC_Session', 'MC_Session' if ctx.quick else 'MC_Session_thorough')
-        for cfg, inv in REJECTED.items():
-            bad = ctx.model('MC_Session', cfg, expect_ok=False, workers=4)
-            if bad.ok or bad.violated != inv:
-                raise core.MachineryError('%s should be rejected on %s (got %r)' % (cfg, inv, bad.violated))
-            ctx.notes.append('design model rejects %s: %s violated' % (cfg, bad.violated))
-        phases['design_models'] = round(time.time() - t0, 1)
+        import concurrent.futures as cf
+        with cf.ThreadPoolExecutor(max_workers=8) as ex:
+            rej = {cfg: ex.submit(ctx.model, 'MC_Session', cfg, 2, False) for cfg in REJECTED}
+            f_beh = ex.submit(_behaviours, ctx.pick('MC_Session_beh2', 'MC_Session_beh'), (), 3000)
+            f_s6 = ex.submit(_behaviours, 'MC_Session_sim',
+                             ['-simulate', 'num=%d' % ctx.pick(400, 8000), '-depth', '9', '-seed', str(ctx.seed + 1)])
+            f_s12 = ex.submit(_behaviours, 'MC_Session_sim12',
+                              ['-simulate', 'num=%d' % ctx.pick(110, 3000), '-depth', '15', '-seed', str(ctx.seed + 2)])
+            for cfg, inv in REJECTED.items():
+                bad = rej[cfg].result()
+                if bad.ok or bad.violated != inv:
+                    raise core.MachineryError('%s should be rejected on %s (got %r)' % (cfg, inv, bad.violated))
+                ctx.notes.append('design model rejects %s: %s violated' % (cfg, bad.violated))
+            behs, sim6, sim12 = f_beh.result(), f_s6.result(), f_s12.result()
+        phases['design_models_and_behaviours'] = round(time.time() - t0, 1)
         t0 = time.time()
         rnd = random.Random(ctx.seed)
-        behs = _behaviours('MC_Session_beh')
-        ctx.coverage['tlc_behaviours_depth3'] = len(behs)
-        sim6 = _behaviours('MC_Session_sim', extra=['-simulate', 'num=%d' % ctx.pick(120, 1500), '-depth', '8',
-                                                     '-seed', str(ctx.seed + 1)])
-        sim12 = _behaviours('MC_Session_sim12', extra=['-simulate', 'num=%d' % ctx.pick(60, 800), '-depth', '14',
-                                                       '-seed', str(ctx.seed + 2)])
+        ctx.coverage['tlc_behaviours_exhaustive'] = len(behs)
         ctx.coverage['tlc_simulated_behaviours'] = len(sim6) + len(sim12)
         for lst in (behs, sim6, sim12):
             rnd.shuffle(lst)
         cases = []
-        plan = [(behs, 'grid', ctx.pick(450, len(behs))), (behs[::-1], 'real', ctx.pick(200, 6000)),
+        plan = [(behs, 'grid', ctx.pick(450, len(behs))), (behs[::-1], 'real', ctx.pick(200, 8000)),
                 (sim6, 'grid', ctx.pick(200, 4000)), (sim6[::-1], 'real', ctx.pick(200, 4000)),
                 (sim12, 'grid', ctx.pick(50, 1500)), (sim12[::-1], 'real', ctx.pick(60, 1500))]
         for lst, kind, n in plan:
             for b in lst[:n]:
                 cases.append(_beh_to_case(b, kind, '%s%d' % (kind[0], len(cases)), rnd))
-    phases['behaviours'] = round(time.time() - t0, 1)
     t0 = time.time()
     results = core.pmap(_safe_execute, cases)
     phases['library_runs'] = round(time.time() - t0, 1)
